@@ -280,19 +280,4 @@ func VH_M4_roll() {
 		hb = rb.RollByte(c)
 	}
 	vAssert(ha == hb, "hash after >= n bytes is a function of the last n bytes only")
-	if !vThorough() {
-		return
-	}
-	// and it does depend on them: a different last byte gives a different hash for this table
-	t := vNondetU8("t")
-	vAssume(t != s[n-1])
-	rc := hash.NewCyclicPoly(n)
-	var hc uint64
-	for i, c := range s {
-		if i == n-1 {
-			c = t
-		}
-		hc = rc.RollByte(c)
-	}
-	vAssert(hc != ha, "changing the last byte changes the hash (table entries are pairwise distinct)")
 }
